@@ -31,6 +31,7 @@ import (
 	"github.com/lightningnetwork/lnd/fn/v2"
 	"github.com/lightningnetwork/lnd/input"
 	"github.com/lightningnetwork/lnd/lntypes"
+	"github.com/lightningnetwork/lnd/lnwallet/chainfee"
 	"github.com/lightningnetwork/lnd/lnwire"
 )
 
@@ -582,7 +583,21 @@ func (c *c17) closeCase(a, b *LightningChannel, p c17params) {
 					sa.sig, sb.sig, sa.local, sa.remote,
 					btcutil.Amount(p.fee+1), sa.opts...,
 				)
-				c.pf("crossfee A => %s", c17err(err))
+				// what the real code builds for fee+1, so that the
+				// monitor can compare trace against trace
+				a.isClosed = false
+				alt := ""
+				_, atx, _, aerr := a.CreateCloseProposal(
+					btcutil.Amount(p.fee+1), sa.local, sa.remote,
+					sa.opts...,
+				)
+				if aerr != nil {
+					alt = "err-" + c17err(aerr)
+				} else {
+					alt = strings.ReplaceAll(strings.ReplaceAll(
+						c17tx(atx), " ", ";"), "=", "~")
+				}
+				c.pf("crossfee A => %s alt=%s", c17err(err), alt)
 			}()
 		}
 	}
@@ -727,6 +742,82 @@ func TestVerifC17(t *testing.T) {
 				fee: c.around(0, 1000, cf, 20000), sA: sA, sB: sB,
 				lock: c.rng.Uint32(),
 			})
+		}
+
+		// (a') HTLC-free but NOT clean: the opener (Alice) sends
+		// update_fee and the commitment dance stops at each intermediate
+		// step. The two local commitments then differ (fee rate, commit
+		// fee, opener balance). Production only negotiates a close on a
+		// clean channel; these cases document what would happen otherwise
+		// (diagnostic, see driver).
+		{
+			fa, fb, err := CreateTestChannels(t, ty.ct)
+			if err != nil {
+				t.Fatalf("CreateTestChannels(%s): %v", ty.name, err)
+			}
+			newFee := chainfee.SatPerKWeight(
+				int64(fa.channelState.LocalCommitment.FeePerKw) +
+					500 + int64(c.rng.Intn(3000)),
+			)
+			step := 0
+			try := func(name string) {
+				sA, sB := c.scriptPair()
+				c.closeCase(fa, fb, c17params{
+					tname: ty.name, mode: "legacy",
+					reached: fmt.Sprintf("feeupdate-%d-%s", step, name),
+					fee: 1000, sA: sA, sB: sB,
+				})
+				step++
+			}
+			func() {
+				defer func() {
+					if r := recover(); r != nil {
+						t.Logf("feeupdate flow panic: %v", r)
+					}
+				}()
+				if err := fa.UpdateFee(newFee); err != nil {
+					t.Logf("UpdateFee: %v", err)
+					return
+				}
+				if err := fb.ReceiveUpdateFee(newFee); err != nil {
+					t.Logf("ReceiveUpdateFee: %v", err)
+					return
+				}
+				try("update-sent")
+				aSigs, err := fa.SignNextCommitment(ctxb)
+				if err != nil {
+					return
+				}
+				if err := fb.ReceiveNewCommitment(aSigs.CommitSigs); err != nil {
+					return
+				}
+				try("commit-received")
+				bRev, _, _, err := fb.RevokeCurrentCommitment()
+				if err != nil {
+					return
+				}
+				try("bob-revoked")
+				bSigs, err := fb.SignNextCommitment(ctxb)
+				if err != nil {
+					return
+				}
+				if _, _, err := fa.ReceiveRevocation(bRev); err != nil {
+					return
+				}
+				if err := fa.ReceiveNewCommitment(bSigs.CommitSigs); err != nil {
+					return
+				}
+				try("alice-commit-received")
+				aRev, _, _, err := fa.RevokeCurrentCommitment()
+				if err != nil {
+					return
+				}
+				try("alice-revoked")
+				if _, _, err := fb.ReceiveRevocation(aRev); err != nil {
+					return
+				}
+				try("clean")
+			}()
 		}
 
 		// (b) forced HTLC-free states on a boundary grid.
